@@ -32,7 +32,7 @@ import rustscan as R
 
 VERIF = os.path.dirname(os.path.dirname(os.path.abspath(__file__)))
 REPO = os.environ.get("VERIF_REPO", "/repo")
-UNITS = os.path.join(VERIF, "verus", "units")
+UNITS = os.environ.get("VERIF_UNITS", os.path.join(VERIF, "verus", "units"))
 OUT = os.environ.get("VERIF_VERUS_OUT", os.path.join(VERIF, ".build", "verus"))
 
 
